@@ -126,9 +126,29 @@ def conc(v):
                 return v.v
     return None
 
+def dag_small(e, limit=1500):
+    """does the term have at most `limit` distinct subterms? (bounded traversal)"""
+    seen, stack = set(), [e]
+    while stack:
+        x = stack.pop()
+        i = x.get_id()
+        if i in seen:
+            continue
+        seen.add(i)
+        if len(seen) > limit:
+            return False
+        stack.extend(x.children())
+    return True
+
 def conc_bool(b):
     if isinstance(b, bool):
         return b
+    if z3.is_true(b):
+        return True
+    if z3.is_false(b):
+        return False
+    if not dag_small(b):
+        return None                 # a condition over big terms is treated as symbolic (simplifying it would cost too much)
     s = simp(b)
     if z3.is_true(s):
         return True
@@ -1929,14 +1949,17 @@ class Interp:
         src.requests.append(nbytes)
         out = []
         for i in range(nbytes):
-            out.append(mk(z3.Select(src.arr, z3.BitVecVal(src.pos + i, 64)), "u8"))
+            if src.data is not None:
+                out.append(I(src.data(src.pos + i), "u8"))
+            else:
+                out.append(mk(z3.Select(src.arr, z3.BitVecVal(src.pos + i, 64)), "u8"))
         src.pos += nbytes
         return out
 
     def src_fill(self, src, dest, fallible):
         n = self.a_len(dest)
         bs = self.src_take(src, n)
-        if fallible:
+        if fallible and src.data is None:
             # the request may fail: the function then returns the error at once; the rest runs on the success path only
             f = z3.Bool(f"src_fail_{len(src.requests)}")
             src.fails.append(f)
@@ -2310,8 +2333,9 @@ class Interp:
 
 class Src:
     """a scripted byte source (`rng: &mut impl RngCore`): the bytes are one symbolic array shared by the two versions"""
-    def __init__(self, name="src"):
+    def __init__(self, name="src", data=None):
         self.arr = z3.Array(name, z3.BitVecSort(64), z3.BitVecSort(8))
+        self.data = data                      # concrete runs: position -> byte
         self.pos, self.requests, self.fails = 0, [], []
 
 def fill_bytes_obj(it, obj, n):
